@@ -1,6 +1,6 @@
 (* C17 -- specifications of the producers (operations that return a new String). *)
 From Coq Require Import List NArith ZArith Bool Lia.
-From Muscle Require Import Cont.StrL0 Cont.StrModel Cont.StrLemmas Cont.StrGrow Cont.StrCore Cont.StrOps Cont.StrL0Facts Cont.StrOps2.
+From Muscle Require Import Cont.StrL0 Cont.StrModel Cont.StrSpec Cont.StrLemmas Cont.StrGrow Cont.StrCore Cont.StrOps Cont.StrL0Facts Cont.StrOps2.
 Import ListNotations.
 Local Open Scope N_scope.
 
@@ -123,6 +123,10 @@ Local Notation indent_loop := (indent_loop M TH PG OV jk true).
 Local Notation indented1 := (indented1 M TH PG OV jk true).
 Local Notation esc_loop := (esc_loop M TH PG OV jk true).
 Local Notation escaped1 := (escaped1 M TH PG OV jk true).
+Local Notation multi_loop := (multi_loop M TH PG OV jk true).
+Local Notation append_ch_times := (append_ch_times M TH PG OV jk true).
+Local Notation float_text1 := (float_text1 M TH PG OV jk true).
+Local Notation replace_multi1 := (replace_multi1 M TH PG OV jk true).
 Local Notation append_s := (append_s M TH PG OV jk true).
 Local Notation append_ch := (append_ch M TH PG OV jk true).
 Local Notation append_c := (append_c M TH PG OV jk true).
@@ -672,6 +676,142 @@ Proof.
   destruct (esc_loop_spec seps esc (abs s) false 0 r0 Ip) as (X1 & X2).
   - rewrite L0, (lenN_abs s I). lia.
   - split; trivial. now rewrite X2, Ap.
+Qed.
+
+(* ---------------------------------------------------------------- Replace / WithReplacements(Hashtable) *)
+
+Lemma multi_fuel_zero f pairs l max : snd (multi_fuel f pairs l max) = 0 -> fst (multi_fuel f pairs l max) = l.
+Proof.
+  revert l max. induction f as [|f IH]; intros l max H; cbn [multi_fuel] in *; [reflexivity|].
+  destruct l as [|c t]; [reflexivity|].
+  destruct (if 0 <? max then key_at pairs (c :: t) else None) as [[k v]|].
+  - destruct (multi_fuel f pairs (dropN (lenN k) (c :: t)) (dec_max max)) as [r n]. cbn [snd] in H. lia.
+  - specialize (IH t max). destruct (multi_fuel f pairs t max) as [r n]. cbn [fst snd] in *. now rewrite IH.
+Qed.
+
+Lemma key_at_nonempty pairs l k v : key_at pairs l = Some (k, v) -> 0 < lenN k /\ In (k, v) pairs.
+Proof.
+  unfold key_at. intros H. apply find_some in H. destruct H as [Hin H]. cbn [fst] in H.
+  apply andb_true_iff in H. destruct H as [H _]. split; trivial.
+  destruct k; [discriminate H|rewrite lenN_cons; lia].
+Qed.
+
+Lemma multi_loop_spec pairs : forall fuel l max r,
+  (length l < fuel)%nat ->
+  inv r -> slen r + lenN (fst (multi_fuel fuel pairs l max)) + 1 <= LIM ->
+  inv (fst (multi_loop fuel pairs l max r)) /\
+  abs (fst (multi_loop fuel pairs l max r)) = abs r ++ fst (multi_fuel fuel pairs l max) /\
+  snd (multi_loop fuel pairs l max r) = snd (multi_fuel fuel pairs l max).
+Proof.
+  induction fuel as [|f IH]; intros l max r Hf I B; [lia|]. cbn [StrModel.multi_loop multi_fuel] in *.
+  destruct l as [|c t]; [cbn [fst snd]; splits; trivial; now rewrite app_nil_r|].
+  destruct (if 0 <? max then key_at pairs (c :: t) else None) as [[k v]|] eqn:EK.
+  - assert (Kp : 0 < lenN k).
+    { destruct (0 <? max); [|discriminate EK]. apply (key_at_nonempty _ _ _ _ EK). }
+    assert (Hf' : (length (dropN (lenN k) (c :: t)) < f)%nat).
+    { pose proof (lenN_dropN (lenN k) (c :: t)) as L. unfold lenN in L, Kp |- *. cbn [length] in Hf, L. lia. }
+    specialize (IH (dropN (lenN k) (c :: t)) (dec_max max)).
+    destruct (multi_fuel f pairs (dropN (lenN k) (c :: t)) (dec_max max)) as [res n] eqn:E0. cbn [fst snd] in *.
+    rewrite lenN_app in B.
+    destruct (append_s_spec r (Some (src_lit v)) I) as (I1 & A1).
+    { split; [apply src_ok_lit|]. cbn [src_lit snd]. unfold LIM in *. lia. }
+    { cbn [StrModel.osrc src_lit snd]. lia. }
+    cbn [StrModel.osrc] in A1. rewrite src_bytes_lit in A1.
+    specialize (IH (StrModel.append_s M TH PG OV jk true r (Some (src_lit v))) Hf' I1).
+    destruct (multi_loop f pairs (dropN (lenN k) (c :: t)) (dec_max max) _) as [r' n'] eqn:E1. cbn [fst snd] in *.
+    destruct IH as (X1 & X2 & X3).
+    { rewrite <- (lenN_abs _ I1), A1, lenN_app, (lenN_abs r I). lia. }
+    splits; trivial; [|lia]. rewrite X2, A1. now rewrite <- app_assoc.
+  - specialize (IH t max).
+    destruct (multi_fuel f pairs t max) as [res n] eqn:E0. cbn [fst snd] in *. rewrite lenN_cons in B.
+    destruct (append_ch_spec r c I) as (I1 & A1); [unfold LIM in *; lia|].
+    specialize (IH (StrModel.append_ch M TH PG OV jk true r c) ltac:(cbn [length] in Hf; lia) I1).
+    destruct IH as (X1 & X2 & X3).
+    { rewrite <- (lenN_abs _ I1), A1, lenN_app, (lenN_abs r I), lenN_cons, lenN_nil. lia. }
+    splits; trivial. rewrite X2, A1. now rewrite <- app_assoc.
+Qed.
+
+Lemma replace_multi_spec s pairs max :
+  inv s -> lenN (fst (l0_replace_multi (abs s) pairs max)) + 1 <= LIM ->
+  match replace_multi1 s pairs max with
+  | (Some w, n) => inv w /\ abs w = fst (l0_replace_multi (abs s) pairs max) /\ n = snd (l0_replace_multi (abs s) pairs max)
+  | (None, n) => n = 0 /\ snd (l0_replace_multi (abs s) pairs max) = 0 /\ fst (l0_replace_multi (abs s) pairs max) = abs s
+  end.
+Proof.
+  intros I B. unfold StrModel.replace_multi1.
+  destruct (l0_replace_multi (abs s) pairs max) as [res n] eqn:E0. cbn [fst snd] in *.
+  destruct (n =? 0) eqn:En.
+  { apply N.eqb_eq in En. splits; trivial. unfold l0_replace_multi in E0.
+    pose proof (multi_fuel_zero (S (length (abs s))) pairs (abs s) max) as Z. rewrite E0 in Z. cbn [fst snd] in Z. now apply Z. }
+  destruct inv_empty1 as (I0 & S0 & A0 & _).
+  destruct (clear_spec empty1 I0) as (Ic & Ac & _).
+  destruct (prealloc_safe (StrModel.clear M empty1) (lenN res) Ic) as (Ip & Ap). rewrite Ac in Ap.
+  set (w0 := snd (StrModel.prealloc M TH PG OV jk true (StrModel.clear M empty1) (lenN res))) in *.
+  assert (L0 : slen w0 = 0) by (rewrite <- (lenN_abs w0 Ip), Ap; reflexivity).
+  unfold l0_replace_multi in E0.
+  destruct (multi_loop_spec pairs (S (length (abs s))) (abs s) max w0) as (X1 & X2 & X3); trivial; [lia|rewrite E0, L0; cbn [fst]; lia|].
+  rewrite E0 in X2, X3. cbn [fst snd] in *.
+  destruct (multi_loop (S (length (abs s))) pairs (abs s) max w0) as [w n']. cbn [fst snd] in *.
+  splits; trivial. now rewrite X2, Ap.
+Qed.
+
+(* ---------------------------------------------------------------- Arg(double, min, max) after the sprintf *)
+
+Lemma repN_S {A} (x : A) n : repN x (n + 1) = x :: repN x n.
+Proof. unfold repN. replace (N.to_nat (n + 1)) with (S (N.to_nat n)) by lia. reflexivity. Qed.
+
+Lemma append_ch_times_spec n : forall r ch, inv r -> slen r + N.of_nat n + 1 <= LIM ->
+  inv (append_ch_times n r ch) /\ abs (append_ch_times n r ch) = abs r ++ repN ch (N.of_nat n).
+Proof.
+  induction n as [|n IH]; intros r ch I B; cbn [StrModel.append_ch_times].
+  - split; trivial. cbn. now rewrite app_nil_r.
+  - destruct (append_ch_spec r ch I) as (I1 & A1); [unfold LIM in *; lia|].
+    destruct (IH (StrModel.append_ch M TH PG OV jk true r ch) ch I1) as (X1 & X2).
+    { rewrite <- (lenN_abs _ I1), A1, lenN_app, (lenN_abs r I), lenN_cons, lenN_nil. lia. }
+    split; trivial. rewrite X2, A1, <- app_assoc. f_equal.
+    replace (N.of_nat (S n)) with (N.of_nat n + 1) by lia. now rewrite repN_S.
+Qed.
+
+Lemma strip_suffix_fuel_len f l suf max : lenN (strip_suffix_fuel f l suf max) <= lenN l.
+Proof.
+  revert l max. induction f as [|f IH]; intros l max; cbn [strip_suffix_fuel]; [lia|].
+  destruct ((0 <? max) && ends_with l suf); [|lia].
+  specialize (IH (l0_trunc_chars l (lenN suf)) (max - 1)). pose proof (l0_trunc_chars_len l (lenN suf)). lia.
+Qed.
+
+Lemma float_text_spec buf m :
+  nulfree buf -> lenN buf + m + 3 <= LIM ->
+  inv (float_text1 buf m) /\ abs (float_text1 buf m) = l0_float_text buf m.
+Proof.
+  intros F B. unfold StrModel.float_text1, l0_float_text.
+  destruct inv_empty1 as (I0 & S0 & A0 & _).
+  destruct (set_cstr_spec empty1 (CLit buf) NOLIMIT I0) as (t0 & E0 & It0 & At0).
+  { rewrite A0. constructor. }
+  { split; [exact F|unfold LIM in *; lia]. }
+  rewrite E0. cbn [snd]. cbn [clit_of] in At0. rewrite takeN_all in At0 by (unfold NOLIMIT, LIM in *; lia).
+  rewrite At0.
+  (* t1: trailing zeros dropped *)
+  set (l1 := if existsb (N.eqb 46) buf then strip_suffix_fuel (S (length buf)) buf [48] NOLIMIT else buf).
+  set (t1 := if existsb (N.eqb 46) buf then StrModel.without_suffix_ch_loop M (S (length buf)) t0 48 NOLIMIT else t0).
+  assert (T1 : inv t1 /\ abs t1 = l1).
+  { unfold t1, l1. destruct (existsb (N.eqb 46) buf); [|split; trivial].
+    destruct (without_suffix_ch_loop_spec (S (length buf)) t0 48 NOLIMIT It0) as (X1 & X2). split; trivial. now rewrite X2, At0. }
+  destruct T1 as (It1 & At1).
+  assert (Ll1 : lenN l1 <= lenN buf) by (unfold l1; destruct (existsb (N.eqb 46) buf); [apply strip_suffix_fuel_len|lia]).
+  assert (St1 : slen t1 = lenN l1) by (rewrite <- (lenN_abs t1 It1), At1; reflexivity).
+  rewrite At1, St1.
+  destruct (m =? 0).
+  - destruct (ends_with l1 [46]); [|split; trivial].
+    destruct (trunc_chars_spec t1 1 It1) as (X1 & X2). split; trivial. now rewrite X2, At1.
+  - destruct (l0_last_index_of_ch l1 46 0) as [|p|p].
+    + destruct (append_ch_times_spec (N.to_nat (m - (lenN l1 - Z.to_N 0 - 1))) t1 48 It1) as (X1 & X2); [rewrite St1; unfold LIM in *; lia|].
+      split; trivial. rewrite X2, At1, N2Nat.id. reflexivity.
+    + destruct (append_ch_times_spec (N.to_nat (m - (lenN l1 - Z.to_N (Z.pos p) - 1))) t1 48 It1) as (X1 & X2); [rewrite St1; unfold LIM in *; lia|].
+      split; trivial. rewrite X2, At1, N2Nat.id. reflexivity.
+    + destruct (append_ch_spec t1 46 It1) as (Id & Ad); [rewrite St1; unfold LIM in *; lia|].
+      destruct (append_ch_times_spec (N.to_nat m) _ 48 Id) as (X1 & X2).
+      { rewrite <- (lenN_abs _ Id), Ad, lenN_app, At1, lenN_cons, lenN_nil. unfold LIM in *. lia. }
+      split; trivial. rewrite X2, Ad, At1, N2Nat.id. reflexivity.
 Qed.
 
 End Prod.
